@@ -1,5 +1,6 @@
 import PyrollModel.Gen.C04
 import PyrollModel.Gen.C04Groove
+import PyrollModel.Gen.C04Valid
 import PyrollProofs.GrooveC04
 
 /-!
@@ -12,7 +13,9 @@ Everything below is about terms GENERATED from the current `/repo` source on eve
   admissible None-pattern (closed forms returned, inlined residuals handed to scipy's root finders), the keyword arguments
   every solver-backed constructor hands to `GenericElongationGroove.__init__` (`plumb_*`) and to its solver (`plumb_*_call`);
 * `PyrollModel/Gen/C04Groove.lean` — the junction chain `z0 … y12`, `alpha1/2`, `beta`, `gamma`, the fourth-of-four resolution
-  and the contour-line functions of `GenericElongationGroove`.
+  and the contour-line functions of `GenericElongationGroove`;
+* `PyrollModel/Gen/C04Valid.lean` — `GenericElongationGroove.test_plausibility`, the test with which the generic constructor
+  hands out or refuses the parameters it has just resolved: one (op, left, right) per `if left op right: raise`.
 
 A change of a formula in the anchored files changes the generated term; the theorem that no longer follows stops building
 (tie T).  Every generated definition is also run over `Float` against the real code (tie K, `driver/props/c04.py`).
@@ -28,7 +31,7 @@ Numeric root finding is an external oracle: closure theorems are conditional on 
 proved where stated (`box_like_root_unique`) and is otherwise established numerically per case by the harness.
 -/
 
-open Gen.C04 Gen.C04.Groove GrooveC04
+open Gen.C04 Gen.C04.Groove Gen.C04.Valid GrooveC04
 set_option linter.unusedSimpArgs false
 set_option linter.unusedVariables false
 set_option linter.unusedTactic false
@@ -184,6 +187,73 @@ theorem noStep_of_dims (fw fh : ℝ) (h1 : Expr.eval σ z3 - Expr.eval σ z4 = f
   simp only [NoStep]; rw [h1, h2, h]
 
 end chain
+
+/-! ## the generic constructor's own test of the resolved parameters (`test_plausibility`)
+
+A solver-backed constructor resolves the derived parameters and hands them to `GenericElongationGroove.__init__`, which
+computes the chain and then either returns the groove or refuses it.  `Gen.C04.Valid.plausibility` is that test as it stands
+in the source.  Proved here: a resolution that closes (`NoStep`) is never refused by it, so that - together with the closure
+theorems below - a feasible input for which the root finder returns a root is resolved and handed out; and the step test
+is two-sided, so that a resolution that does NOT close (in either direction) is refused rather than handed out. -/
+section validator
+variable (σ : String → ℝ)
+
+/-- the rejection test `if left op right: raise` (an entry of the generated list) holds in `σ` -/
+def Fires (σ : String → ℝ) (c : String × Expr × Expr) : Prop :=
+  if c.1 = "gt" then Expr.eval σ c.2.1 > Expr.eval σ c.2.2
+  else if c.1 = "ge" then Expr.eval σ c.2.1 ≥ Expr.eval σ c.2.2
+  else if c.1 = "lt" then Expr.eval σ c.2.1 < Expr.eval σ c.2.2
+  else Expr.eval σ c.2.1 ≤ Expr.eval σ c.2.2
+
+/-- signed step at junction 4: the end of the r2 arc above (+) / below (−) the flank line through junction 3 -/
+noncomputable def stepAt4 (σ : String → ℝ) : ℝ :=
+  Expr.eval σ y4 - (Expr.eval σ y3 - Real.tan (σ "flank_angle") * (Expr.eval σ z4 - Expr.eval σ z3))
+
+theorem noStep_iff_step_zero : NoStep σ ↔ stepAt4 σ = 0 := by
+  simp only [NoStep, stepAt4]
+  constructor <;> intro h <;> linear_combination h
+
+/-- a resolution whose chain closes is not refused: none of the tests of `test_plausibility` holds
+    (`alpha2` is *defined* by the chain as `flank_angle + alpha4 − alpha3`, so the angle test compares 0 with its bound;
+    the step test compares `|0|` with a non-negative tolerance) -/
+theorem plausibility_accepts_closed (h : NoStep σ) (hd : 0 ≤ σ "depth") (hz : 0 ≤ Expr.eval σ z0) :
+    ∀ c ∈ plausibility, ¬ Fires σ c := by
+  have h0 := (noStep_iff_step_zero σ).mp h
+  simp only [stepAt4] at h0
+  intro c hc
+  simp only [plausibility, List.mem_cons, List.mem_nil_iff, or_false] at hc
+  rcases hc with rfl | rfl
+  · simp only [Fires, plaus_0_lhs, plaus_0_rhs, alpha2, Expr.eval, PyNum.dec_real, reduceIte]
+    norm_num
+  · simp only [Fires, plaus_1_lhs, plaus_1_rhs, reduceIte]
+    generalize hz0 : Expr.eval σ z0 = Z at hz
+    simp only [Expr.eval, PyNum.dec_real, PyNum.abs_real, PyNum.tan_real, hz0]
+    rw [h0, abs_zero]
+    have : 0 ≤ (1:ℝ) / 10 ^ 3 * σ "depth" + (1:ℝ) / 10 ^ 9 * Z := by positivity
+    push_cast
+    linarith
+
+/-- the same from the two flank dimensions a closure theorem delivers -/
+theorem not_refused_of_dims (fw fh : ℝ) (h1 : Expr.eval σ z3 - Expr.eval σ z4 = fw)
+    (h2 : Expr.eval σ y4 - Expr.eval σ y3 = fh) (h : fh = fw * Real.tan (σ "flank_angle"))
+    (hd : 0 ≤ σ "depth") (hz : 0 ≤ Expr.eval σ z0) : ∀ c ∈ plausibility, ¬ Fires σ c :=
+  plausibility_accepts_closed σ (noStep_of_dims σ fw fh h1 h2 h) hd hz
+
+/-- the step test is two-sided: whatever its tolerance `T` evaluates to, a step of more than `T` in EITHER direction is
+    refused (a test on the signed step alone would let an r2 arc ending below the flank line through) -/
+theorem plausibility_step_two_sided :
+    ∃ c ∈ plausibility, ∀ T : ℝ, Expr.eval σ c.2.2 = T → (stepAt4 σ > T ∨ stepAt4 σ < -T) → Fires σ c := by
+  refine ⟨("gt", plaus_1_lhs, plaus_1_rhs), by simp [plausibility], ?_⟩
+  intro T hT hs
+  simp only [Fires, reduceIte, hT]
+  simp only [plaus_1_lhs, Expr.eval, PyNum.abs_real, PyNum.tan_real]
+  simp only [stepAt4] at hs
+  rcases hs with h | h
+  · exact lt_of_lt_of_le h (le_abs_self _)
+  · have := neg_abs_le (Expr.eval σ y4 - (Expr.eval σ y3 - Real.tan (σ "flank_angle") * (Expr.eval σ z4 - Expr.eval σ z3)))
+    linarith
+
+end validator
 
 /-! ## `solve_box_like` -/
 section box
@@ -1301,6 +1371,28 @@ theorem r1234_free_closure_b (ρ σ : String → ℝ)
   · linear_combination hres0 - hres2
   · linear_combination (-1 : ℝ) * hres2
 
+/-- constricted circular oval, every pad angle: what `solve_r1234` resolves (a root of its residual) is handed out by the
+    generic constructor's plausibility test, in both geometric configurations -/
+theorem r1234_free_not_refused_a (ρ σ : String → ℝ)
+    (L : Link1234 r1234_free_flank_angle r1234_free_alpha3 r1234_free_alpha4 ρ σ)
+    (A : AngleOK (ρ "root0" + ρ "root1" - ρ "root2") (ρ "pad_angle")) (hg : ρ "root1" > ρ "root2")
+    (hres0 : Expr.eval (upd (upd (upd ρ "_x0" (ρ "root0")) "_x1" (ρ "root1")) "_x2" (ρ "root2")) r1234_free_res0a = 0)
+    (hres1 : Expr.eval (upd (upd (upd ρ "_x0" (ρ "root0")) "_x1" (ρ "root1")) "_x2" (ρ "root2")) r1234_free_res1a = 0)
+    (hres2 : Expr.eval (upd (upd (upd ρ "_x0" (ρ "root0")) "_x1" (ρ "root1")) "_x2" (ρ "root2")) r1234_free_res2a = 0)
+    (hd : 0 ≤ σ "depth") (hz : 0 ≤ Expr.eval σ z0) : ∀ c ∈ plausibility, ¬ Fires σ c := by
+  obtain ⟨h1, h2, -⟩ := r1234_free_closure_a ρ σ L A hg hres0 hres1 hres2
+  exact not_refused_of_dims σ 0 0 h1 h2 (by ring) hd hz
+
+theorem r1234_free_not_refused_b (ρ σ : String → ℝ)
+    (L : Link1234 r1234_free_flank_angle r1234_free_alpha3 r1234_free_alpha4 ρ σ)
+    (A : AngleOK (ρ "root0" + ρ "root1" - ρ "root2") (ρ "pad_angle")) (hg : ¬ ρ "root1" > ρ "root2")
+    (hres0 : Expr.eval (upd (upd (upd ρ "_x0" (ρ "root0")) "_x1" (ρ "root1")) "_x2" (ρ "root2")) r1234_free_res0b = 0)
+    (hres1 : Expr.eval (upd (upd (upd ρ "_x0" (ρ "root0")) "_x1" (ρ "root1")) "_x2" (ρ "root2")) r1234_free_res1b = 0)
+    (hres2 : Expr.eval (upd (upd (upd ρ "_x0" (ρ "root0")) "_x1" (ρ "root1")) "_x2" (ρ "root2")) r1234_free_res2b = 0)
+    (hd : 0 ≤ σ "depth") (hz : 0 ≤ Expr.eval σ z0) : ∀ c ∈ plausibility, ¬ Fires σ c := by
+  obtain ⟨h1, h2, -⟩ := r1234_free_closure_b ρ σ L A hg hres0 hres1 hres2
+  exact not_refused_of_dims σ 0 0 h1 h2 (by ring) hd hz
+
 theorem r1234_fw_closure_a (ρ σ : String → ℝ)
     (L : Link1234 r1234_fw_flank_angle r1234_fw_alpha3 r1234_fw_alpha4 ρ σ)
     (A : AngleOK (ρ "root0" + ρ "root1" - ρ "root2") (ρ "pad_angle")) (hg : ρ "root1" > ρ "root2")
@@ -1737,6 +1829,63 @@ example : ∃ ρ : String → ℝ, 0 ≤ ρ "r1" ∧ 0 < ρ "r2" ∧ 0 ≤ ρ "p
   refine ⟨env [("r2", 1), ("depth", 1 - Real.cos (Real.pi / 4))], by simp [env, List.lookup], by simp [env, List.lookup],
     by simp [env, List.lookup], by simp [env, List.lookup, Real.pi_pos], ?_⟩
   simp only [r124_widthNone_free_res0]; norm_ex; ring
+
+/-- `plausibility_accepts_closed` / `not_refused_of_dims`: a sharp 45° groove of depth 1 and usable width 2 closes -/
+example : ∃ σ : String → ℝ, NoStep σ ∧ 0 ≤ σ "depth" ∧ 0 ≤ Expr.eval σ z0 ∧ σ "depth" = 1 ∧ σ "usable_width" = 2 := by
+  let σ := env [("flank_angle", Real.pi / 4), ("usable_width", 2), ("depth", 1)]
+  have hfa : σ "flank_angle" = Real.pi / 4 := by simp [σ, env, List.lookup]
+  have huw : σ "usable_width" = 2 := by simp [σ, env, List.lookup]
+  have hd : σ "depth" = 1 := by simp [σ, env, List.lookup]
+  have hpa : σ "pad_angle" = 0 := by simp [σ, env, List.lookup]
+  have hr1 : σ "r1" = 0 := by simp [σ, env, List.lookup]
+  have hr2 : σ "r2" = 0 := by simp [σ, env, List.lookup]
+  have hr3 : σ "r3" = 0 := by simp [σ, env, List.lookup]
+  have hr4 : σ "r4" = 0 := by simp [σ, env, List.lookup]
+  have hin : σ "indent" = 0 := by simp [σ, env, List.lookup]
+  have heg : σ "even_ground_width" = 0 := by simp [σ, env, List.lookup]
+  have hpd : σ "pad" = 0 := by simp [σ, env, List.lookup]
+  have hc : Real.cos ((σ "flank_angle" + σ "pad_angle") / 2) ≠ 0 := by
+    rw [hfa, hpa]
+    exact (Real.cos_pos_of_mem_Ioo ⟨by linarith [Real.pi_pos], by linarith [Real.pi_pos]⟩).ne'
+  refine ⟨σ, ?_, by rw [hd]; norm_num, ?_, hd, huw⟩
+  · simp only [NoStep]
+    rw [eval_z3 σ hc, eval_y3 σ hc, z4_closed, y4_closed]
+    simp only [lt, hfa, huw, hd, hr1, hr2, hr3, hr4, hin, heg, Real.tan_pi_div_four]
+    ring
+  · simp only [z0, Expr.eval, eval_z1, lt, hr1, huw, hpd]
+    norm_num
+
+/-- `plausibility_step_two_sided` bites: depth 1 under a 45° flank that would need depth 2 - the r2 arc ends BELOW the
+    flank line (negative step, the side a one-sided test lets through) and the groove is refused -/
+example : ∃ σ : String → ℝ, stepAt4 σ < 0 ∧ ∃ c ∈ plausibility, Fires σ c := by
+  let σ := env [("flank_angle", Real.pi / 4), ("usable_width", 4), ("depth", 1)]
+  have hfa : σ "flank_angle" = Real.pi / 4 := by simp [σ, env, List.lookup]
+  have huw : σ "usable_width" = 4 := by simp [σ, env, List.lookup]
+  have hd : σ "depth" = 1 := by simp [σ, env, List.lookup]
+  have hpa : σ "pad_angle" = 0 := by simp [σ, env, List.lookup]
+  have hr1 : σ "r1" = 0 := by simp [σ, env, List.lookup]
+  have hr2 : σ "r2" = 0 := by simp [σ, env, List.lookup]
+  have hr3 : σ "r3" = 0 := by simp [σ, env, List.lookup]
+  have hr4 : σ "r4" = 0 := by simp [σ, env, List.lookup]
+  have hin : σ "indent" = 0 := by simp [σ, env, List.lookup]
+  have heg : σ "even_ground_width" = 0 := by simp [σ, env, List.lookup]
+  have hpd : σ "pad" = 0 := by simp [σ, env, List.lookup]
+  have hc : Real.cos ((σ "flank_angle" + σ "pad_angle") / 2) ≠ 0 := by
+    rw [hfa, hpa]
+    exact (Real.cos_pos_of_mem_Ioo ⟨by linarith [Real.pi_pos], by linarith [Real.pi_pos]⟩).ne'
+  have hstep : stepAt4 σ = -1 := by
+    simp only [stepAt4]
+    rw [eval_z3 σ hc, eval_y3 σ hc, z4_closed, y4_closed]
+    simp only [lt, hfa, huw, hd, hr1, hr2, hr3, hr4, hin, heg, Real.tan_pi_div_four]
+    ring
+  have hz0 : Expr.eval σ z0 = 2 := by
+    simp only [z0, Expr.eval, eval_z1, lt, hr1, huw, hpd]; norm_num
+  refine ⟨σ, by rw [hstep]; norm_num, ?_⟩
+  refine ⟨("gt", plaus_1_lhs, plaus_1_rhs), by simp [plausibility], ?_⟩
+  simp only [stepAt4] at hstep
+  simp only [Fires, reduceIte, plaus_1_lhs, plaus_1_rhs]
+  simp only [Expr.eval, PyNum.dec_real, PyNum.abs_real, PyNum.tan_real, hz0, hstep, hd]
+  norm_num
 
 end examples
 
